@@ -16,6 +16,11 @@ from . import c05_gen as G
 
 REQ = ["Scope.PySyntax", "Scope.Finder", "Scope.PySem", "Scope.Wire"]
 
+# the Python functions Scope/Finder.v transcribes
+ANCHORS = ["pyflyby._autoimp:ScopeStack", "pyflyby._autoimp:symbol_needs_import", "pyflyby._autoimp:_MissingImportFinder",
+           "pyflyby._autoimp:scan_for_import_issues", "pyflyby._autoimp:_find_missing_imports_in_ast",
+           "pyflyby._autoimp:find_missing_imports"]
+
 
 # ---------------------------------------------------------------------------------------------
 # cases
@@ -334,6 +339,8 @@ def comp_targets(prog):
         if t == "op":
             for x in e[2]:
                 ex(x)
+        elif t == "attr":
+            ex(e[1])
         elif t == "lambda":
             for x in e[2]:
                 ex(x)
@@ -478,6 +485,8 @@ def sub_exprs(e, acc):
     if t == "op":
         for x in e[2]:
             sub_exprs(x, acc)
+    elif t == "attr":
+        sub_exprs(e[1], acc)
     elif t == "lambda":
         for x in e[2]:
             sub_exprs(x, acc)
@@ -691,8 +700,9 @@ def run_witnesses(ctx):
 
 
 def run(ctx):
+    cm.check_anchors(ctx, ANCHORS)
     run_witnesses(ctx)
-    n = 600 if ctx.quick else 12000
+    n = (600 if ctx.quick else 12000) * ctx.scale
     ctx.coverage["rule"] = (
         "terms of Scope/PySyntax.v from one seeded PRNG, rendered to source: 3/4 'executed' programs (no else/handler/"
         "star/__all__, every def and lambda registered and run after the module), 1/4 'free' programs (all constructs); "
